@@ -310,6 +310,9 @@ func redeclCases() []asiCase {
 	decls := map[string]string{"let": "let a;", "const": "const a=1;", "class": "class a{}"}
 	scopes := []struct{ pre, post string }{
 		{"", ""}, {"{", "}"}, {"function f(){", "}"}, {"for(;;){", "}"}, {"switch(x){case 1:", "}"}, {"try{}catch(e){", "}"}, {"class C{static{", "}}"}, {"x=()=>{", "}"}, {"if(x){", "}"}, {"l:{", "}"}, {"x=function(){", "}"}, {"x={m(){", "}}"},
+		// scopes whose own name, parameter or catch variable is the redeclared name (one shadowing is legal, two are not)
+		{"x=function a(){", "}"}, {"x=function*a(){", "}"}, {"x=async function a(){", "}"}, {"x=class a{m(){", "}}"}, {"x=class a{static{", "}}"}, {"function a(){", "}"},
+		{"try{}catch(a){{", "}}"}, {"x={a(){", "}}"}, {"a:{", "}"},
 	}
 	for _, sc := range scopes {
 		for k1, d1 := range decls {
@@ -616,6 +619,32 @@ func c03Work(c *engine.Ctx) {
 			emitReject(a.src, "ASI not applicable")
 		} else {
 			emitTree(a.src, a.exp, "", strings.HasPrefix(a.src, "import"))
+		}
+	}
+	// the [In] grammar parameter: inside the initialiser of a for statement `in` is an operator only where the grammar
+	// switches the parameter back on (middle operand of ?:, brackets, parentheses, arguments, literals, function bodies)
+	for _, a := range []asiCase{
+		{"for(var x=a?b in c:d;;){}", "Stmt(for Decl(var Binding(x = (a ? (b in c) : d))) ; ; Stmt({ }))", false},
+		{"for(x=a?b in c:d;;){}", "Stmt(for (x=(a ? (b in c) : d)) ; ; Stmt({ }))", false},
+		{"for(x=a?b?c in d:e:f;;){}", "Stmt(for (x=(a ? (b ? (c in d) : e) : f)) ; ; Stmt({ }))", false},
+		{"for(a?b in c:d;;){}", "Stmt(for (a ? (b in c) : d) ; ; Stmt({ }))", false},
+		{"for(var x=[a in b];;){}", "Stmt(for Decl(var Binding(x = [(a in b)])) ; ; Stmt({ }))", false},
+		{"for(var x=f(a in b);;){}", "Stmt(for Decl(var Binding(x = (f((a in b))))) ; ; Stmt({ }))", false},
+		{"for(var x={k:a in b};;){}", "Stmt(for Decl(var Binding(x = {k: (a in b)})) ; ; Stmt({ }))", false},
+		{"for(var x=(a in b);;){}", "Stmt(for Decl(var Binding(x = ((a in b)))) ; ; Stmt({ }))", false},
+		{"for(var x=a[b in c];;){}", "Stmt(for Decl(var Binding(x = (a[(b in c)]))) ; ; Stmt({ }))", false},
+		{"for(var x=y=>{a in b};;){}", "Stmt(for Decl(var Binding(x = (Params(Binding(y)) => Stmt({ Stmt(a in b) })))) ; ; Stmt({ }))", false},
+		{"for(var x=function(){a in b};;){}", "Stmt(for Decl(var Binding(x = Decl(function Params() Stmt({ Stmt(a in b) })))) ; ; Stmt({ }))", false},
+		{"for(;a in b;c in d){}", "Stmt(for ; (a in b) ; (c in d) Stmt({ }))", false},
+		{"for(var x=a in b;;){}", "", true},
+		{"for(x=a?b:c in d;;){}", "", true},
+		{"for(var x=y=>a in b;;){}", "", true},
+		{"for(let x=a||b in c;;){}", "", true},
+	} {
+		if a.reject {
+			emitReject(a.src, "`in` where the grammar parameter [In] is off")
+		} else {
+			emitTree(a.src, a.exp, "", false)
 		}
 	}
 	for _, a := range redeclCases() {
